@@ -77,7 +77,7 @@ ASSUMPTIONS = ["trusted base: the per-object policy record kept by the harness (
                "dangerous callables are represented by canaries (record + raise); the real ones are never reachable from a generated name",
                "only SecurityOptions-based policies are used (bytes/int/float atoms are always allowed by them)"]
 SHARDS = {"quick": 4, "thorough": 16}
-FLOORS = {"directed_roundtrips": 3000, "immutable_nodes_in_cycles_rereferenced": 5000, "pooled_policy_cases": 10000, "fresh_policy_cases": 10000, "nothing_allowed_policy_cases": 8000, "method_atoms_generated": 3000, "inherited_or_dunder_method_names": 2000, "method_atom_cases_returned": 150, "unjelly_calls": 20000, "unjelly_returned": 3000, "unjelly_raised": 3000, "resolution_events": 1000, "objects_walked": 10000,
+FLOORS = {"growing_policy_cases": 1500, "roundtrips_after_policy_growth": 1500, "persistentLoad_calls": 200, "directed_roundtrips": 3000, "immutable_nodes_in_cycles_rereferenced": 5000, "pooled_policy_cases": 10000, "fresh_policy_cases": 10000, "nothing_allowed_policy_cases": 8000, "method_atoms_generated": 3000, "inherited_or_dunder_method_names": 2000, "method_atom_cases_returned": 150, "unjelly_calls": 20000, "unjelly_returned": 3000, "unjelly_raised": 3000, "resolution_events": 1000, "objects_walked": 10000,
           "canary_selftest_trips": 10, "audit_selftest_blocks": 2, "roundtrips": 500, "roundtrip_shared_or_cyclic": 200,
           "instances_returned": 100, "dangerous_names_generated": 2000}
 READY = True
@@ -399,7 +399,8 @@ def make_policy(env, k):
 
 POLICY_NAMES = ["default (nothing allowed)", "basic", "instancesOf(Allowed,Derived)", "modules(allowed)+function/method/class/module/instance",
                 "instancesOf(Allowed,Derived)+function+method", "instancesOf(Allowed,Derived)+method",
-                "instancesOf(other.Secret,other.Base)+function+method", "jelly.globalSecurity"]
+                "instancesOf(other.Secret,other.Base)+function+method", "jelly.globalSecurity",
+                "one object grown in steps (mutated between unjelly calls)"]
 POOL_ORDER = [6, 4, 3, 2, 5, 1, 0, 7]  # permissive ones are configured first, strict ones afterwards
 
 
@@ -600,10 +601,16 @@ def state(rng, env, depth, stats):
 
 
 # ------------------------------------------------------------------ one security case
-def run_case(ctx, env, i):
-    rng = ctx.case_rng(i)
+class HarnessAbort(BaseException):
+    """Application code that fails with a BaseException-only class."""
+
+
+def run_case(ctx, env, i, forced=None, sub=None):
+    rng = ctx.case_rng(i) if sub is None else ctx.case_rng(i, sub)
     k = rng.randrange(8)
-    if rng.random() < 0.5:  # a long-lived policy object shared by many interleaved cases
+    if forced is not None:  # the growing family: one object, mutated between unjelly calls
+        model, k = forced, 8
+    elif rng.random() < 0.5:  # a long-lived policy object shared by many interleaved cases
         model = env.pool[k]
         ctx.count("pooled_policy_cases")
     else:  # a fresh object, created after every other policy of the process was configured
@@ -624,13 +631,21 @@ def run_case(ctx, env, i):
     ctx.count("unjelly_calls")
     ctx.seen("policies", POLICY_NAMES[k])
     result, error = None, None
+    pmode = rng.choice(["ok", "ok", "raise", "abort"])
+
+    def persistent_load(pid, unj):  # application call-out: may fail, also with a BaseException-only class
+        ctx.count("persistentLoad_calls")
+        if pmode == "raise":
+            raise KeyError(pid)
+        if pmode == "abort":
+            raise HarnessAbort(pid)
+        return env.jelly.Unpersistable("harness persistent")
+
     with armed(), warnings.catch_warnings():
         warnings.simplefilter("ignore")
         try:
-            result = env.jelly.unjelly(sexp, taster, persistentLoad=lambda pid, unj: env.jelly.Unpersistable("harness persistent"))
-        except RecursionError as e:
-            error = e
-        except Exception as e:
+            result = env.jelly.unjelly(sexp, taster, persistentLoad=persistent_load)
+        except (Exception, HarnessAbort) as e:
             error = e
         events, canary_calls, audit_events = list(Guard.events), list(Guard.canary_calls), list(Guard.audit_events)
         bad = walk(ctx, env, model, result) if error is None else []
@@ -640,7 +655,7 @@ def run_case(ctx, env, i):
     else:
         ctx.count("unjelly_raised")
         ctx.seen("errors", type(error).__name__)
-    wit = {"case": i, "policy": POLICY_NAMES[k], "sexp": sexp, "resolution_events": events[:20], "outcome": "returned %r" % (result,) if error is None else "raised %s: %s" % (type(error).__name__, str(error)[:150])}
+    wit = {"case": i, "growing_step": sub, "policy": POLICY_NAMES[k], "sexp": sexp, "resolution_events": events[:20], "outcome": "returned %r" % (result,) if error is None else "raised %s: %s" % (type(error).__name__, str(error)[:150])}
     # 1. name resolution
     for kind, name in events:
         if kind == "import-nested":
@@ -904,6 +919,36 @@ def run_roundtrip(ctx, env, i):
         ctx.violation(key, "unjelly(jelly(g)) is not isomorphic to g", {"roundtrip_case": i, "jelly": s, "difference": diff, "taster": "instancesOf(Allowed)+method" if use_taster else "Dummy"})
 
 
+def run_growing(ctx, env, i):
+    """One SecurityOptions object used before and after the harness allows more on it: the hostile
+    s-expression of each step is judged against the record of THAT moment; afterwards a graph of the newly
+    allowed classes must round-trip with the same object."""
+    pol = Policy(env, 8)
+    ctx.count("growing_policy_cases")
+    run_case(ctx, env, i, forced=pol, sub="g0")
+    pol.allow_instances(env.amod.Allowed, env.amod.Derived)
+    run_case(ctx, env, i, forced=pol, sub="g1")
+    pol.allow_types("method", "function")
+    run_case(ctx, env, i, forced=pol, sub="g2")
+    rng = ctx.case_rng(i, "g-rt")
+    g, _ = gen_directed(rng, env) if rng.random() < 0.3 else gen_graph(rng, env)
+    diff = None
+    with armed(), warnings.catch_warnings():
+        warnings.simplefilter("ignore")
+        try:
+            s = env.jelly.jelly(g, pol.taster)
+            iso(g, env.jelly.unjelly(s, pol.taster), {})
+        except Diff as d:
+            diff = str(d)
+        except Exception as e:
+            s, diff = None, "raised %s: %s" % (type(e).__name__, str(e)[:200])
+    ctx.evaluated()
+    ctx.count("roundtrips_after_policy_growth")
+    if diff:
+        ctx.violation("roundtrip-after-policy-growth", "a graph of classes allowed on the policy object after earlier unjelly calls does not round-trip with it",
+                      {"growing_case": i, "difference": diff})
+
+
 def run(ctx):
     with Env() as env:
         selftest(ctx, env)
@@ -911,13 +956,17 @@ def run(ctx):
             run_case(ctx, env, i)
         for i in ctx.cases(12000, 400000):
             run_roundtrip(ctx, env, i)
+        for i in ctx.cases(2000, 60000):
+            run_growing(ctx, env, i)
         ctx.count("setstate_calls_on_harness_class", len(env.amod.setstate_log))
 
 
 def replay(ctx, w):
     with Env() as env:
         x = w["witness"]
-        if "roundtrip_case" in x:
+        if x.get("growing_case") is not None or x.get("growing_step"):
+            run_growing(ctx, env, x.get("growing_case", x.get("case")))
+        elif "roundtrip_case" in x:
             run_roundtrip(ctx, env, x["roundtrip_case"])
         else:
             run_case(ctx, env, x["case"])
